@@ -60,6 +60,12 @@ CLAIMED = {
         text="Lean theorems for every set of variant names, every lower-casing function and EVERY order of the emitted arms: parse(s) = Ok(v) iff v is a variant, s equals its name ignoring case and (no other variant shares the lower-cased name or s is the name exactly) (enum_parse_iff); own names round-trip; all other strings are rejected; newtypes return the field's result unchanged. The model's arm set is compared with the working-tree expansion on ~400 generated enums; 26 types (case-colliding groups, raw identifiers, non-ASCII names, 7 newtype field types) parse all strings up to length 3 over their alphabet with the real macro against an independent statement of the rule",
         note="Lean kernel; model tied by differential run; str::to_lowercase is a parameter; first-match semantics of match-with-guards is the modelled fragment of Rust",
         ref="DESIGN.md §4 C13"),
+    "C06": dict(
+        level="proof",
+        technique="Lean 4 theorems relating a model of the crate's DebugTuple/Padded to a model of core's DebugTuple/PadAdapter (fields are arbitrary functions of the formatter options) + both models run against the real code + type pairs compared with std's derive",
+        text="Lean theorems for every name, every number of fields and every field behaviour: the crate's tuple builder writes what core's writes in every non-alternate configuration (tuple_eq_std_flat) and in pretty mode whenever the fields do not depend on the non-alternate options (tuple_eq_std_pretty); padding is chunk-insensitive; the derive omits skipped fields and closes with finish_non_exhaustive iff one is skipped. The full statement is false on this tree (kernel-checked counterexample = the known finding). Both models are compared with the real src/fmt.rs and the real core builders on 6k scripted runs; the Debug expander model with the working tree; 70 generated type pairs (raw identifiers, generics, enums, skip) are printed under 14 specs + nesting against std's derive",
+        note="Lean kernel; partial: the pretty x non-default-options case is a known finding; writer errors (fmt::Error) are not modelled",
+        ref="DESIGN.md §4 C06"),
 }
 
 NOT_APPLICABLE = {}
